@@ -371,14 +371,14 @@ Proof.
     + specialize (IH X' (X' :: prev) Gs' (S cnt) (orb hang h)). lia.
 Qed.
 
-Lemma bisect_loop_cnt fuel : forall X Xmin Xmax Gs cnt hang,
-  (snd (fst (fst (bisect_loop N beta r0 eta0 zeta0 dt fuel X Xmin Xmax Gs cnt hang))) <= cnt + fuel)%nat.
+Lemma bisect_loop_cnt sf fuel : forall X Xmin Xmax Gs cnt hang,
+  (snd (fst (fst (bisect_loop N beta r0 eta0 zeta0 dt sf fuel X Xmin Xmax Gs cnt hang))) <= cnt + fuel)%nat.
 Proof.
   induction fuel as [|f IH]; intros X Xmin Xmax Gs cnt hang; cbn [bisect_loop].
   - cbn. lia.
   - destruct (stiefel_Gs3 N beta X) as [[[[G0 G1] G2] G3] h].
     destruct (nltb N _ _).
-    + match goal with |- context [bisect_loop N beta r0 eta0 zeta0 dt f ?a ?b ?c ?d ?e ?g] =>
+    + match goal with |- context [bisect_loop N beta r0 eta0 zeta0 dt sf f ?a ?b ?c ?d ?e ?g] =>
         specialize (IH a b c d e g) end. lia.
     + cbn. lia.
 Qed.
@@ -399,12 +399,11 @@ Lemma bisection_phase_cnt flo ell M v2 Xpp invp Gs2 h2 :
   (snd (fst (fst (bisection_phase N flo ell beta r0 eta0 zeta0 dt M v2 Xpp invp Gs2 h2))) <= BFUEL)%nat.
 Proof.
   unfold bisection_phase.
-  match goal with |- context [let '(Xmin, Xmax) := ?e in _] => destruct e as [Xmin Xmax] end.
-  cbv zeta.
-  match goal with |- context [bisect_loop N beta r0 eta0 zeta0 dt ?k ?a ?b ?c ?d ?e ?g] =>
-    pose proof (bisect_loop_cnt k a b c d e g) as H'; destruct (bisect_loop N beta r0 eta0 zeta0 dt k a b c d e g)
-      as [[[[Xr [[[G0 G1] G2] G3]] cnt] h] oof] end.
-  cbn [fst snd] in *. lia.
+  destruct ell; [|destruct (nltb N dt (nzero N))]; cbv zeta;
+  match goal with |- context [bisect_loop N beta r0 eta0 zeta0 dt ?sf ?k ?a ?b ?c ?d ?e ?g] =>
+    pose proof (bisect_loop_cnt sf k a b c d e g) as H'; destruct (bisect_loop N beta r0 eta0 zeta0 dt sf k a b c d e g)
+      as [[[[Xr [[[G0 G1] G2] G3]] cnt] h] oof] end;
+  cbn [fst snd] in *; lia.
 Qed.
 End Bounds.
 
